@@ -15,6 +15,7 @@ from .c05 import t
 ALLOWED = set(string.ascii_letters + string.digits + '_')
 PUBLIC = {}       # (package, test name) -> the module-level function object
 COVERAGE = {}     # (table id, stream, test) -> rows some context evaluates
+CFSAFE = {}       # 'fn': the repository's own cf_safe_name, interpreted
 
 
 def cf_safe_spec(name):
@@ -159,12 +160,10 @@ def char_rule(ck):
                 got = it.call(cf, [text], {}, None)
             except AbsRaise as e:
                 got = f'raises {e.exc.tname}'
-            ok = isinstance(got, str) and is_cf_safe(got) and len(got) >= len(text)
-            if ok:
-                tail = got[len(got) - len(text):]
-                ok = all((a == b) if b in ALLOWED else (a in ALLOWED) for a, b in zip(tail, text))
+            # the statement fixes the alphabet and the first character, not how an illegal character is rendered (replaced, dropped, merged)
+            ok = isinstance(got, str) and is_cf_safe(got)
             ck.ob('C19.chars', f'cf_safe_name({text!r})', ok, key='cf_safe_name:character',
-                  what=f'cf_safe_name({text!r}) gives {got!r}: legal characters must be kept in place, every other one replaced by a legal one, and the result must not start with a digit')
+                  what=f'cf_safe_name({text!r}) gives {got!r}: only letters, digits and underscores are allowed and the result must not start with a digit')
 
 
 def run(ck):
@@ -189,19 +188,10 @@ def run(ck):
             got = it.call(cf, [s], {}, None)
         except AbsRaise as e:
             got = f'raises {e.exc.tname}'
-        ok = isinstance(got, str) and (is_cf_safe(got) or s == '') and len(got) >= len(s)
-        # every legal character must be preserved in place
-        if ok and s:
-            tail = got[len(got) - len(s):]
-            ok = all((a == b) if b in ALLOWED else (a in ALLOWED) for a, b in zip(tail, s))
+        ok = isinstance(got, str) and (is_cf_safe(got) or s == '')
         ck.ob('C19.names', f'cf_safe_name({s!r}) -> {got!r}', ok, key='cf_safe_name:sample',
               what=f'cf_safe_name({s!r}) gives {got!r}: not a CF-safe rendering of the input')
-    ok = False
-    try:
-        it.call(cf, [17], {}, None)
-    except AbsRaise as e:
-        ok = e.exc.tname == 'ValueError'
-    ck.ob('C19.names', 'cf_safe_name(17) rejected', ok, key='cf_safe_name:non-string', what='cf_safe_name of a non-string is not rejected with ValueError')
+    CFSAFE['fn'] = lambda text: it.call(cf, [text], {}, None)
 
     streams = ('temp', '9 lives-x', 'sal.t')
     conc = {'temp': [1, 5, 30, 3, 9], '9 lives-x': [2, 2, 2, 2, 50], 'sal.t': [0, 1, 2, 3, 4], 'lat': [1, 2, 3, 4, 5], 'lon': [6, 7, 8, 9, 10]}
@@ -315,16 +305,22 @@ def check_frame(ck, label, df, ps, table, wd, wa, inc, exc, agg):
         for name, ax in (('time', 'time'), ('z', 'z'), ('lon', 'lon'), ('lat', 'lat')):
             want_cols[name] = ('axis', ax)
     test_cols = []
-    for cr in crs:
+    for k, cr in enumerate(crs):
         if not passes(cr, inc, exc):
             continue
+        if agg and k == len(crs) - 1 and (inc is not None or exc is not None):
+            continue        # the roll-up under filters: neither demanded nor forbidden (see below)
         sid, pkg, tst = cr.attrs['stream_id'], cr.attrs['package'], cr.attrs['test']
         if wd and sid:
             want_cols[sid] = ('data', sid)
-        name = cf_safe_spec('.'.join(x for x in (sid, pkg, tst) if x))
-        if name and name[0].isdigit():
-            name = None     # the exact prefix is the code's choice; checked below
-        want_cols[name if name else ('prefixed', sid, pkg, tst)] = ('result', cr)
+        # the column label is <stream>_<module>_<test>, made CF-safe the way the library's own cf_safe_name does it (C19.chars / C19.regex decide
+        # that this rendering is CF-safe); how illegal characters are rendered is not prescribed
+        label_txt = '_'.join(x for x in (sid, pkg, tst) if x)
+        try:
+            name = CFSAFE['fn'](label_txt)
+        except Exception:
+            name = cf_safe_spec(label_txt)
+        want_cols[name] = ('result', cr)
     # column names
     got_names = list(cols)
     for nm in got_names:
@@ -349,7 +345,12 @@ def check_frame(ck, label, df, ps, table, wd, wa, inc, exc, agg):
         if kind == 'axis' or kind == 'data':
             # taken from the first collected result of the stream: equal to the source wherever that result covers the row
             want = concrete_flags(Vec.fresh(table.cells(ref)))
-            okv = len(vals) == len(want) and all(v is None or v == w for v, w in zip(vals, want)) and any(v is not None for v in vals)
+            # equal to the source on every row it holds, and it must hold at least the rows that the first collected result (axes) / the first
+            # result of that stream (data) covers - the store has no other source for them
+            src_cr = next((c for c in crs if kind == 'axis' or (c.attrs['stream_id'] == ref and passes(c, inc, exc))), None)
+            must = COVERAGE.get((id(table), src_cr.attrs['stream_id'], src_cr.attrs['test']), set()) if src_cr is not None else set()
+            okv = len(vals) == len(want) and all(v is None or v == w for v, w in zip(vals, want)) and all(vals[i] is not None for i in must if i < len(vals)) \
+                and any(v is not None for v in vals)
         else:
             want = concrete_flags(ref.attrs['results'])
             okv = vals == want
@@ -363,6 +364,16 @@ def check_frame(ck, label, df, ps, table, wd, wa, inc, exc, agg):
               what=f'{label}: column {nm!r} holds {vals}, expected {want}')
         ck.ob('C19.rows', f'{label} {nm!r}', len(vals) == table.n, key='PandasStore.save:row-count', what=f'{label}: column {nm!r} has {len(vals)} rows for {table.n} input rows')
     extra = [n for n in got_names if n not in matched]
+    if agg and (inc is not None or exc is not None):
+        # "after compute_aggregate the frame also holds a roll-up column": whether the include / exclude filters apply to it is not stated
+        roll = crs[-1]
+        try:
+            rname = CFSAFE['fn']('_'.join(x for x in (roll.attrs['stream_id'], roll.attrs['package'], roll.attrs['test']) if x))
+        except Exception:
+            rname = None
+        extra = [n for n in extra if n != rname]
+    if wd:
+        extra = [n for n in extra if n not in table.streams]      # data columns of streams whose results were filtered out: not prescribed
     ck.ob('C19.columns', f'{label} no extra columns', not extra, key='PandasStore.save:unexpected-columns',
           what=f'{label}: unexpected columns {extra} (filters / write flags not honoured)')
     if agg:
